@@ -33,6 +33,9 @@ pub struct Scn {
     pub steps: Vec<Step>,
     pub seed: u64,
     pub use_at_end: bool,
+    /// stdout of the key commands is a (pseudo-)terminal instead of a pipe
+    #[serde(default)]
+    pub tty_stdout: bool,
 }
 
 pub struct B4;
@@ -108,7 +111,7 @@ impl Family for B4 {
                 _ => {}
             }
         }
-        Scn { start_generated: rng.chance(1, 2), first_password, steps, seed: rng.next_u64(), use_at_end: rng.chance(1, 3) }
+        Scn { start_generated: rng.chance(1, 2), first_password, steps, seed: rng.next_u64(), use_at_end: rng.chance(1, 3), tty_stdout: rng.chance(1, 4) }
     }
     fn execute(&self, s: &Scn) -> RunOut {
         let mut out = RunOut::default();
@@ -121,6 +124,9 @@ impl Family for B4 {
         let mut run_inv = |inv: Invocation, th: &mut u64, all: &mut Vec<u8>| {
             let mut inv = inv;
             inv_n += 1;
+            if s.tty_stdout && matches!(inv.stdout, Stdout::Capture) && inv.args.first().map(|a| a == b"key").unwrap_or(false) {
+                inv.stdout = Stdout::Pty;
+            }
             inv.entropy_seed = Some(s.seed ^ inv_n.wrapping_mul(0x9E3779B97F4A7C15));
             let fin = run(&sb, &inv);
             *th = th.rotate_left(13) ^ fin.digest();
@@ -306,7 +312,8 @@ impl Family for B4 {
         out.count("probe.password_changes", (strings.len() - 1) as u64);
         out.trace_hash = th;
         out.steps = inv_n;
-        out.signature = format!("b4|{}|{}|{}", s.start_generated, s.steps.iter().map(|t| match t { Step::ChangePass(p) => if p.is_empty() { 'e' } else if !p.is_ascii() { 'u' } else if p.len() >= 64 { 'L' } else { 'c' }, Step::ExtractPub => 'x', Step::TryOldPassword(_) => 'o', Step::TryVariantPassword(_) => 'v', Step::ChangePassWrongOld(_) => 'w', Step::Damaged(..) => 'd' }).collect::<String>(), s.use_at_end);
+        out.count("probe.tty_stdout_histories", s.tty_stdout as u64);
+        out.signature = format!("b4|{}{}|{}|{}", s.start_generated, if s.tty_stdout { "T" } else { "" }, s.steps.iter().map(|t| match t { Step::ChangePass(p) => if p.is_empty() { 'e' } else if !p.is_ascii() { 'u' } else if p.len() >= 64 { 'L' } else { 'c' }, Step::ExtractPub => 'x', Step::TryOldPassword(_) => 'o', Step::TryVariantPassword(_) => 'v', Step::ChangePassWrongOld(_) => 'w', Step::Damaged(..) => 'd' }).collect::<String>(), s.use_at_end);
         out.nontrivial = s.steps.len() >= 2;
         out
     }
